@@ -30,7 +30,11 @@ def run(index, rep, tier):
     for n in walk_no_nested(fd.node):
         if isinstance(n, ast.Assign) and isinstance(n.value, ast.Lambda) and any(isinstance(c, ast.Call) and call_name(c) in getters for c in ast.walk(n.value)):
             wrapped.add(norm(n.targets[0]))
-    leaf_ifs = [i for i in ast.walk(fd.node) if isinstance(i, ast.If) and norm(i.test) in ("not c", "not nd._child_nodes", "not nd.child_nodes()", "nd.is_leaf()")]
+    child_vars = {norm(n.targets[0]) for n in ast.walk(fd.node) if isinstance(n, ast.Assign) and isinstance(n.value, (ast.Call, ast.Attribute))
+                  and ("child_nodes" in norm(n.value))}
+    leaf_ifs = [i for i in ast.walk(fd.node) if isinstance(i, ast.If) and (
+        (isinstance(i.test, ast.UnaryOp) and isinstance(i.test.op, ast.Not) and (norm(i.test.operand) in child_vars or "child_nodes" in norm(i.test.operand)))
+        or (isinstance(i.test, ast.Call) and call_name(i.test) == "is_leaf"))]
     if not leaf_ifs:
         raise AnalysisError("R16.1: leaf branch of fitch_down_pass not recognised")
     for li in leaf_ifs:
@@ -76,7 +80,9 @@ def run(index, rep, tier):
     rep.check(bool(asserts), "R16.3", fd.qualname, "out-parameter asserted empty", fn_where(fd), "score_by_character_list is asserted empty on entry", "fitch_down_pass no longer asserts that score_by_character_list is empty on entry: stale per-character scores are added to")
 
     # ---- R16.4
-    incs = [n for n in ast.walk(fd.node) if isinstance(n, ast.AugAssign) and norm(n.target) == "score" and isinstance(n.op, ast.Add)]
+    frets = [norm(n.value) for n in walk_no_nested(fd.node) if isinstance(n, ast.Return) and n.value is not None]
+    scv = frets[-1] if frets else "score"
+    incs = [n for n in ast.walk(fd.node) if isinstance(n, ast.AugAssign) and norm(n.target) == scv and isinstance(n.op, ast.Add)]
     if not incs:
         raise AnalysisError("R16.4: total-score increment not found")
     pm = parent_map(fd.node)
@@ -92,7 +98,8 @@ def run(index, rep, tier):
                   "each `score += %s` is matched by `score_by_character_list[n] += %s`" % (norm(inc.value), norm(inc.value)),
                   "fitch_down_pass adds `%s` to the total but not the same amount to score_by_character_list[n]: the per-character scores no longer add up to the total" % norm(inc.value))
     # weights index = character index of the zip
-    wt = [n for n in ast.walk(fd.node) if isinstance(n, ast.Assign) and norm(n.targets[0]) == "wt" and isinstance(n.value, ast.Subscript)]
+    wtv = norm(incs[0].value) if incs else "wt"
+    wt = [n for n in ast.walk(fd.node) if isinstance(n, ast.Assign) and norm(n.targets[0]) == wtv and isinstance(n.value, ast.Subscript)]
     enum = [l for l in ast.walk(fd.node) if isinstance(l, ast.For) and isinstance(l.iter, ast.Call) and call_name(l.iter) == "enumerate"]
     ok = bool(wt) and bool(enum) and norm(wt[0].value.slice) in names_in(enum[0].target) and norm(wt[0].value.value) == "weights"
     rep.check(ok, "R16.4", fd.qualname, "weight index", fn_where(fd), "the weight applied is weights[<character index of the enumerate>]", "fitch_down_pass indexes weights with something other than the character index")
